@@ -13,6 +13,13 @@ label-exchange symmetry, well-formedness) that holds on the translation fails on
     /venv/bin/python harness/tools/c15_adequacy.py [repo] --write     store counts + surviving mutants under "adequacy" in c15_nesting.json;
                                                                       every survivor needs a reviewed reason (REASONS below), else the tool refuses
 
+SECOND MUTANT CLASS (consistent exchange): for every model and every pair of distinct parameters of the same class, the two parameters are
+exchanged in ALL their occurrences (= `__param_names__` transposed relative to the body: a caller who builds the vector from the names gets
+the two values exchanged).  Such a mutant is invisible to every obligation that treats the two parameters alike (zero / equal rates, the
+label symmetry when the slip is itself label-symmetric); it is killed by a nesting against an intact sibling, by a zero-length-epoch nesting
+that reads the two parameters in different roles, or by a nesting of the model against itself.  An exchange whose program normalises to the
+same program in every affected model is a provable symmetry (not a mutant).  Stored under "adequacy"."exchange".
+
 The committed entry is data reviewed by hand on the unchanged tree; the check never rewrites it.
 """
 import sys, os, json, re, collections
@@ -34,14 +41,19 @@ REASONS = [
      'interior of the exponential size functions nuEu0*(nuEu/nuEu0)**(t/TEuAs), nuAs0*(nuAs/nuAs0)**(t/TEuAs): at every exact nesting point either '
      'TEuAs=0 (epoch dropped) or final size = initial size (the power is 1 whatever its base-point / time scale); no other three-population library '
      'model has a growing population to compare with'),
-    (r'admix_origin_sym_mig_adj\|5:integrate\.ms',
-     'm2 <-> m3 confusion in the three-population migration matrix: the only siblings are admix_origin_no_mig (all rates 0) and admix_origin_uni_mig_adj '
-     '(rates only INTO population 3: no common non-zero pattern), and the label-exchange symmetry 1<->2 (m2<->m3, f -> 1-f) involves a population created '
-     'by admixture, which `relabel` does not cover (DSL.v relabel_ok_instr)'),
+]
+
+# ... of the exchange class (regex on the mutant key  unit|exchange|a<->b)
+REASONS_EXCHANGE = [
+    (r'out_of_africa\|exchange\|(nuEu0<->nuEu|nuAs0<->nuAs)$',
+     'initial and final size of an exponentially growing population, nuEu0*(nuEu/nuEu0)**(t/TEuAs): the exchange reverses the growth. Every exact nesting '
+     'point of out_of_africa has TEuAs=0 (epoch dropped) or final size = initial size (where the exchange changes nothing), and no other three-population '
+     'library model has a growing population to compare with (the same fact as for the single-occurrence mutants of these size functions); both names are '
+     'handed to the same keyword, so the name-semantics table cannot tell them apart either'),
 ]
 
 def reason_of(key):
-    for rx, why in REASONS:
+    for rx, why in (REASONS_EXCHANGE if '|exchange|' in key else REASONS):
         if re.search(rx, key):
             return why
     return None
@@ -83,6 +95,26 @@ def main():
         print('  %s   [affects %d model(s)]%s' % (r['key'], r['affected'], '' if why else '   <-- NO REVIEWED REASON'))
         if not why:
             todo.append(r['key'])
+    xrows, _, _ = K.exchange_table(data, progs, first_only='--all' not in flags, ob=ob, un=un)
+    xs = K.summarize_exchange(xrows)
+    print('exchange class: %(mutants)d mutants (unordered pairs of same-class parameters of one unit); %(identical)d provable symmetries, %(killed)d killed, '
+          '%(surviving)d surviving' % xs)
+    kinds = collections.Counter(r['killed_by'][0].split(':')[0] for r in xrows if r['killed_by'])
+    print('first killer by kind:', dict(kinds))
+    if '--all' in flags:
+        single = [r for r in xrows if len(r['killed_by']) == 1]
+        print('exchange mutants killed by exactly one obligation: %d' % len(single))
+        for r in single:
+            print('   %s   only by %s' % (r['key'], r['killed_by'][0]))
+    for r in xrows:
+        if r['identical']:
+            print('  provable symmetry: %s' % r['key'])
+    xsurv = [r for r in xrows if not r['identical'] and not r['killed_by']]
+    for r in xsurv:
+        why = reason_of(r['key'])
+        print('  %s   [affects %d model(s)]%s' % (r['key'], r['affected'], '' if why else '   <-- NO REVIEWED REASON'))
+        if not why:
+            todo.append(r['key'])
     if '--write' in flags:
         if todo or bad or ob.errors or un.bad:
             print('refusing to write: unreviewed survivors / obligations not holding'); sys.exit(1)
@@ -93,9 +125,17 @@ def main():
                         'listed here. Key: unit|position|parameter->replacement.',
             'mutants': sm['mutants'], 'mutants_killed': sm['mutants_killed'], 'occurrences': sm['occurrences'],
             'occurrences_killed': sm['occurrences_killed'], 'occurrences_unkillable': occ_unk,
-            'unkillable': {r['key']: reason_of(r['key']) for r in surv}}
+            'unkillable': {r['key']: reason_of(r['key']) for r in surv},
+            'exchange': {
+                '_comment': 'Second mutant class: two distinct parameters of the same class (size / time / rate / gamma / proportion) of one model exchanged in '
+                            'ALL their occurrences (= __param_names__ transposed relative to the body). Key: unit|exchange|a<->b. "identical": the exchanged '
+                            'program normalises to the same program in every affected model (a provable symmetry, not a mutant).',
+                'mutants': xs['mutants'], 'identical': xs['identical'], 'killed': xs['killed'], 'unkillable_count': len(xsurv),
+                'symmetries': sorted(r['key'] for r in xrows if r['identical']),
+                'unkillable': {r['key']: reason_of(r['key']) for r in xsurv}}}
         json.dump(data, open(DATA, 'w'), indent=1)
-        print('written: adequacy: %d occurrences, %d killed, %d unkillable (%d mutants listed)' % (sm['occurrences'], sm['occurrences_killed'], occ_unk, len(surv)))
+        print('written: adequacy: %d occurrences, %d killed, %d unkillable (%d mutants listed); exchange class: %d mutants, %d killed, %d unkillable' % (
+            sm['occurrences'], sm['occurrences_killed'], occ_unk, len(surv), xs['mutants'], xs['killed'], len(xsurv)))
 
 if __name__ == '__main__':
     main()
